@@ -1467,6 +1467,9 @@ func (x *fnExec) discharge(cfg Config, filter func(o *Obl) bool) []*OblResult {
 		}
 		ag.Sites++
 		ag.Secs += sr.res.Secs
+		if sr.res.Status != "unsat" && os.Getenv("SCTPVC_ALLSITES") != "" {
+			fmt.Fprintf(os.Stderr, "FAILSITE %s [%s] %s\n", o.Name, sr.res.Status, o.Site)
+		}
 		switch sr.res.Status {
 		case "unsat":
 			ag.backends[sr.res.Backend]++
@@ -1684,6 +1687,9 @@ func verifyWriters(p *Program) *FuncReport {
 	}
 	for _, oi := range p.ObjInvs {
 		rep.Results = append(rep.Results, p.checkObjInv(oi, rep))
+	}
+	for _, nn := range p.NonNils {
+		rep.Results = append(rep.Results, p.checkNonNil(nn, rep))
 	}
 	for _, ws := range p.Writers {
 		r := &OblResult{Name: "writers#" + ws.Field, Func: packageKey, Kind: "writers", Tags: ws.Tags, Status: "proved", Backend: "frame-scan", Sites: 1,
@@ -1942,6 +1948,175 @@ func (p *Program) checkObjInv(oi *ObjInv, rep *FuncReport) *OblResult {
 		for key := range e.keys {
 			if inv[key] {
 				problems = append(problems, "method "+k+" writes "+key+" and has no postcondition re-establishing the invariant")
+			}
+		}
+	}
+	sort.Strings(problems)
+	if len(problems) > 0 {
+		r.Status = "refuted"
+		r.FailSite = problems[0]
+		r.Output = strings.Join(problems, "\n")
+	}
+	return r
+}
+
+
+// checkNonNil discharges a nonnil declaration by a package scan: the listed fields are stored to only in the listed
+// constructors, every value stored there is visibly non-nil (a fresh allocation, make, closure, or the result of an
+// in-package function all of whose returns are such), and objects of the type are allocated only in the constructors.
+func (p *Program) checkNonNil(nn *NonNil, rep *FuncReport) *OblResult {
+	r := &OblResult{Name: "nonnil#" + nn.Type, Func: packageKey, Kind: "nonnil", Tags: nn.Tags, Status: "proved", Backend: "frame-scan", Sites: 0,
+		Src: "fields " + strings.Join(nn.Fields, ", ") + " of " + nn.Type + " are set once, to a non-nil value, by " + strings.Join(nn.Ctors, ", ")}
+	var named *types.Named
+	if tn, ok := p.SSA.Members[nn.Type].(*ssa.Type); ok {
+		named, _ = tn.Type().(*types.Named)
+	}
+	if named == nil {
+		rep.Errors = append(rep.Errors, "anchor-lost: nonnil: type "+nn.Type+" not found")
+		r.Status = "error"
+		return r
+	}
+	st, _ := named.Underlying().(*types.Struct)
+	want := map[string]bool{}
+	for _, f := range nn.Fields {
+		found := false
+		for i := 0; st != nil && i < st.NumFields(); i++ {
+			if st.Field(i).Name() == f {
+				found = true
+			}
+		}
+		if !found {
+			rep.Errors = append(rep.Errors, "anchor-lost: nonnil "+nn.Type+": field "+f+" not found")
+		}
+		want[f] = true
+	}
+	ctor := map[string]bool{}
+	for _, c := range nn.Ctors {
+		ctor[c] = true
+		if p.FuncByKey[c] == nil {
+			rep.Errors = append(rep.Errors, "anchor-lost: nonnil "+nn.Type+": constructor "+c+" not found")
+		}
+	}
+	var nonNilValue func(v ssa.Value, depth int) bool
+	nonNilValue = func(v ssa.Value, depth int) bool {
+		switch t := v.(type) {
+		case *ssa.Alloc, *ssa.MakeMap, *ssa.MakeChan, *ssa.MakeSlice, *ssa.MakeClosure, *ssa.Function:
+			return true
+		case *ssa.MakeInterface:
+			return true
+		case *ssa.ChangeType:
+			return nonNilValue(t.X, depth)
+		case *ssa.Call:
+			callee := t.Call.StaticCallee()
+			if callee == nil || depth > 2 {
+				return false
+			}
+			if !p.inPackage(callee) {
+				switch callee.String() {
+				case "time.NewTimer", "context.WithCancel", "github.com/pion/logging.(*DefaultLoggerFactory).NewLogger":
+					return true
+				}
+				return false
+			}
+			if len(callee.Blocks) == 0 {
+				return false
+			}
+			any := false
+			for _, b := range callee.Blocks {
+				for _, in := range b.Instrs {
+					if ret, ok := in.(*ssa.Return); ok {
+						if len(ret.Results) == 0 {
+							return false
+						}
+						any = true
+						if !nonNilValue(ret.Results[0], depth+1) {
+							return false
+						}
+					}
+				}
+			}
+			return any
+		case *ssa.Phi:
+			for _, e := range t.Edges {
+				if e != v && !nonNilValue(e, depth+1) {
+					return false
+				}
+			}
+			return true
+		case *ssa.Extract:
+			return false
+		}
+		return false
+	}
+	isStruct := func(t types.Type) bool {
+		if pt, ok := t.Underlying().(*types.Pointer); ok {
+			t = pt.Elem()
+		}
+		n, ok := t.(*types.Named)
+		return ok && n.Obj() == named.Obj()
+	}
+	var problems []string
+	for k, fn := range p.FuncByKey {
+		if fn.Parent() != nil || isSpecFile(p, fn) {
+			continue
+		}
+		var walk func(f *ssa.Function)
+		walk = func(f *ssa.Function) {
+			for _, b := range f.Blocks {
+				for _, in := range b.Instrs {
+					switch t := in.(type) {
+					case *ssa.Alloc:
+						if isStruct(t.Type()) && !ctor[k] {
+							problems = append(problems, k+" allocates a "+nn.Type)
+						}
+					case *ssa.Store:
+						fa, ok := t.Addr.(*ssa.FieldAddr)
+						if !ok || !isStruct(fa.X.Type()) || !want[st.Field(fa.Field).Name()] {
+							continue
+						}
+						r.Sites++
+						fname := st.Field(fa.Field).Name()
+						if !ctor[k] {
+							problems = append(problems, k+" stores to "+nn.Type+"."+fname)
+						} else if !nonNilValue(t.Val, 0) {
+							problems = append(problems, k+" stores a value to "+nn.Type+"."+fname+" that is not visibly non-nil")
+						}
+					}
+				}
+			}
+			for _, af := range f.AnonFuncs {
+				walk(af)
+			}
+		}
+		walk(fn)
+	}
+	// every listed field must actually be set by each constructor that allocates the type
+	for _, cn := range nn.Ctors {
+		fn := p.FuncByKey[cn]
+		if fn == nil {
+			continue
+		}
+		allocs := false
+		set := map[string]bool{}
+		for _, b := range fn.Blocks {
+			for _, in := range b.Instrs {
+				switch t := in.(type) {
+				case *ssa.Alloc:
+					if isStruct(t.Type()) {
+						allocs = true
+					}
+				case *ssa.Store:
+					if fa, ok := t.Addr.(*ssa.FieldAddr); ok && isStruct(fa.X.Type()) {
+						set[st.Field(fa.Field).Name()] = true
+					}
+				}
+			}
+		}
+		if allocs {
+			for _, f := range nn.Fields {
+				if !set[f] {
+					problems = append(problems, "constructor "+cn+" never sets "+nn.Type+"."+f)
+				}
 			}
 		}
 	}
